@@ -214,4 +214,51 @@ K_LOOP = {
             ["<EventIterator as Iterator>::next"], "3 events, all tokens, unwind 5"),
 }
 
-PROPS["DEV"] = dict(level="proof", k=list(K_PING.values()) + list(K_IO.values()) + list(K_LOOP.values()), m=[])
+
+def P(pid, level, k, m=None, bounds="", outside="", assumptions=None):
+    PROPS[pid] = dict(level=level, k=k, m=m or [], bounds=bounds, outside=outside, assumptions=assumptions or [])
+
+
+P("C01", "proof",
+  [K_LIST[0], K_GEN["match"], K_TIMER["match"], K_PING["decode"], K_SYS["reports"], K_SYS["factory"], K_LOOP["it"]],
+  bounds="3 slots; full 64-bit token space; 1 fd",
+  outside="composition over histories (DESIGN 2); user sources that ignore their token; kernel delivering a key never registered")
+P("C02", "proof", [K_SYS["cvt_mode"], K_SYS["cvt_interest"], K_SYS["table"], K_SYS["reports"], K_SYS["clamp"], K_SYS["selftest"]],
+  bounds="1 fd, 0-1 timer, all modes/interests",
+  outside="that the kernel reports level/edge/oneshot as documented; batches larger than the poller buffer")
+P("C03", "proof", [K_PING["decode"], K_PING["inc"]], bounds="all 2^64 counter values",
+  outside="counter saturation after 2^63 undrained pings; weak memory")
+P("C05", "proof", [K_TIMER["first"], K_TIMER["cmp"], K_TIMER["match"], K_SYS["clamp"], K_SYS["selftest"]],
+  bounds="3 heap entries; instants below 10^6 s",
+  outside="u32 heap counter wrapping after 2^32 insertions; wall-clock behaviour of the real poller")
+P("C06", "proof", K_LIST[1:] + K_LIST[:1] + K_REENT, bounds="2-3 slots, all generations",
+  outside="reference-count facts (each source/callback dropped exactly once) are Rust ownership, not solver obligations; "
+          "documented reference cycles")
+P("C07", "proof", [K_GEN["steps"], K_GEN["match"]], bounds="3 steps, 1 fd",
+  outside="user sources that keep firing when unregistered")
+P("C08", "proof", K_REENT, bounds="one foreign lifecycle entry",
+  outside="panics other than RefCell double borrows; user code inside register()")
+P("C09", "proof", [K_SOURCES["bitor"], K_GEN["match"]], bounds="all 16 pairs")
+P("C12", "proof", [K_SYS["clamp"], K_SYS["selftest"]], bounds="0-1 timer; now/deadline/timeout below 10^6 s, every nanosecond",
+  outside="that the OS sleeps as long as asked; scheduling latency")
+P("C13", "proof", [K_SOURCES["idle"]], bounds="both cases")
+P("C14", "proof", K_LC + K_LC2 + [K_LOOP["it"]], bounds="<= 2 foreign set entries; 3 polled events",
+  outside="composition over histories")
+P("C15", "proof", K_LC + [K_GEN["exact"], K_GEN["steps"]], bounds="1 step from any invariant state; 3 steps for Generic",
+  outside="OOM; composition")
+P("C16", "proof", [K_GEN["steps"], K_GEN["exact"], K_SYS["table"]] + K_GEN_DROP, bounds="1 fd, 3 steps",
+  outside="fd numbers reused by the OS after close; composition over histories")
+P("C17", "proof", [K_IO["nb"], K_IO["iod"]], bounds="all flag/readiness values",
+  outside="kernel socket semantics; buffer sizes")
+K_TR_IND = [H("k_c18_ind_" + sh, "transient", "inductive step from ANY state of shape %s satisfying the representation invariant "
+               "(child registered exactly as the state says relative to the parent): one symbolic protocol operation re-establishes "
+               "it with no double register/unregister, no event from an unregistered child, no registered child dropped" % sh,
+               TR_FNS, "1 operation from an arbitrary invariant state, instantiation TransientSource<Child mock>, unwind 3",
+               timeout_q=900)
+            for sh in ["keep", "register", "disable", "disabled", "remove", "replace", "none"]]
+P("C18", "proof", K_TR_IND + [K_TR["3"], K_TR["e3"], K_TR["noop"], K_TR["4"], K_TR["5"]], bounds="3 operations (quick), 4-5 (thorough)",
+  outside="fd-backed children are represented by the mock child (a double unregister is ENOENT for Generic: shown natively); "
+          "two changes without an intervening re-registration; replace() on an empty wrapper")
+PROPS["C20"]["k"] = K_TOKEN + [K_SYS["factory"]]
+
+PROPS["DEV"] = dict(level="proof", k=K_TR_IND, m=[])
